@@ -143,6 +143,8 @@ def gen_case(rnd, cname, prop, shape=None, mask_p=None, force_dt=None, zero_weig
             fine = True
     zeros = cname == "ADividedByB" and rnd.random() < 0.5
     arrays = [gen_array(rnd, shape, dt, fuzzy, mask_p, hostile, big=big and dt != "DInt", fine=fine, zeros=zeros) for dt in dts]
+    if n >= 2 and cname in cc.NARY and rnd.random() < 0.12:
+        arrays[rnd.randrange(1, n)] = arrays[0]          # the same result mentioned twice in the list ([FA, FB, FA])
     if big:
         # the wide input carries values of the same magnitude as the narrow one
         for i, dt in enumerate(dts):
@@ -371,6 +373,11 @@ def main():
                         arrays.append(numpy.ma.array([rnd.choice(HIDDEN_F) if v is None else v for v in col], mask=[v is None for v in col]))
                     for p in plist:
                         jobs.append((cname, arrays, dict(p)))
+                    if k == 2 and chunk == 0 and cname != "FuzzyNot":
+                        # the same result mentioned twice: [A, B, A] is a list of three inputs
+                        p3 = {"TruestOrFalsest": "Truest", "NumberToConsider": 2} if cname == "FuzzySelectedUnion" else ({"Weights": [1, 2, 0.5]} if cname == "FuzzyWeightedUnion" else {})
+                        jobs.append((cname, [arrays[0], arrays[1], arrays[0]], p3))
+                        jobs.append((cname, [arrays[1], arrays[0], arrays[0]], p3))
     if prop == "C05":
         # every command once on a rank-3 and once on a rank-2 grid with no axis of length 1 and missing cells in the inputs
         for cname in pool:
@@ -530,6 +537,32 @@ def main():
             same = (o[0] == o2[0]) and (o[1] == o2[1] if o[0] == "err" else same_obs(canon(o[1]), canon(o2[1]), Fr(1, 1 << 40)))
             if not same and not (o[0] == "err" and o[1] in ("MixedArrayShapes",)):
                 fails.append({"sig": "%s:order:%s" % (prop, cname), "what": "%s gives %s for one input order and %s for another" % (cname, summarize(o), summarize(o2)), "replay": dict(replay, other_order=perm)})
+    if prop == "C08":
+        # one layer used by several conversions in one model: each conversion gives what it gives when it is the only user of the layer
+        dist["shared_input_layers"] = 0
+        singles = [c for c in CONV if c not in cc.FUZZY_IN]
+        for _ in range(max(30, n // 12)):
+            picks = []
+            for cname in rnd.sample(singles, 2) + ([rnd.choice(["NormalizeMeanToMid", "CvtToFuzzyMeanToMid"])] if rnd.random() < 0.6 else []):
+                g = gen_case(rnd, cname, prop, shape=(6,), mask_p=0.2)
+                if g is not None and g[0]:
+                    picks.append((cname, g[1], g[0][0]))
+            if len(picks) < 2:
+                continue
+            layer = numpy.ma.array(numpy.array([0, 2, 0, 5, 3, 7, 1, 0][:rnd.randint(5, 8)], dtype=float), mask=False)        # a layer with valid zero cells
+            layer = numpy.ma.array(numpy.ma.getdata(layer), mask=[rnd.random() < 0.15 for _ in range(layer.size)])
+            rnd.shuffle(picks)
+            shared = cc.run_shared([(c, p) for c, p, _ in picks], layer)
+            evaluations += 1
+            dist["shared_input_layers"] += 1
+            for (cname, p, _), o_sh in zip(picks, shared):
+                o_solo = run_impl(cname, [layer.copy()], p)
+                same = (o_sh[0] == o_solo[0]) and (o_sh[1] == o_solo[1] if o_sh[0] == "err" else same_obs(canon(o_sh[1]), canon(o_solo[1]), Fr(1, 1 << 40)))
+                if not same:
+                    fails.append({"sig": "C08:shared-layer:%s" % cname, "what": "%s gives %s when the layer is also used by %s in the same model, and %s on its own" % (
+                        cname, summarize(o_sh), [c for c, _, _ in picks if c != cname], summarize(o_solo)),
+                        "replay": dict(describe(cname, [layer], p), other_users_of_the_layer=[[c, pp] for c, pp, _ in picks])})
+                    break
     if prop == "C06":
         # the definitions hold whatever the process-wide floating-point and warning configuration: under numpy.seterr(divide, invalid, over = "raise")
         # and warnings turned into errors (pytest -W error, a strict host application) every case gives what it gave before
@@ -606,6 +639,21 @@ def main():
                         fails.append({"sig": "C04:range:%s" % cname, "what": "%s returned values outside [-1, 1] (floating-point overshoot): %r" % (cname, bad[:5]),
                                       "replay": describe(cname, arrays, p)})
     if prop == "C05":
+        # layers of different rank are different shapes even when one shape is a prefix of the other or numpy could broadcast them:
+        # (n,) with (n, 1), (n,) with (n, n), (r, c) with (r, c, 1) -- reported as mixed shapes, never silently broadcast
+        dist["rank_mismatches"] = 0
+        for cname in ["Sum", "Mean", "Multiply", "Minimum", "AMinusB", "ADividedByB", "WeightedSum", "FuzzyOr", "FuzzyAnd", "FuzzyUnion", "FuzzyXOr", "FuzzySelectedUnion"]:
+            for sh1, sh2 in (((3,), (3, 1)), ((3,), (3, 3)), ((2, 3), (2, 3, 1)), ((1, 4), (4,))):
+                fz = cname in cc.FUZZY_IN
+                a1 = gen_array(rnd, sh1, "DFloat", fz, 0.2)
+                a2 = gen_array(rnd, sh2, "DFloat", fz, 0.2)
+                pp = {"Weights": [1, 2]} if cname == "WeightedSum" else ({"TruestOrFalsest": "Truest", "NumberToConsider": 1} if cname == "FuzzySelectedUnion" else {})
+                o = run_impl(cname, [a1, a2] if rnd.random() < 0.5 else [a2, a1], pp)
+                evaluations += 1
+                dist["rank_mismatches"] += 1
+                if not (o[0] == "err" and o[1] == "MixedArrayShapes"):
+                    fails.append({"sig": "C05:rank-mismatch:%s" % cname, "what": "%s was given layers of shapes %s and %s and gave %s instead of reporting mixed shapes" % (cname, sh1, sh2, summarize(o)),
+                                  "replay": describe(cname, [a1, a2], pp)})
         # large rasters: a grid made of many copies of a small block gives that many copies of the block's result (cells are
         # computed independently; whole-array statistics are the same for the block and for the grid), whatever its size
         dist["large_rasters"] = 0
